@@ -17,6 +17,7 @@ Dispatch(e) == LET a == e.a IN
     \/ e.op = "Reset"  /\ Reset(a.base)
     \/ e.op = "Run"    /\ Run(a.cfg, a.h)
     \/ e.op = "Endian" /\ Endian(a.mem)
+    \/ e.op = "Blind"  /\ Blind(a.cfg)
 
 TNext == /\ l <= Len(JsonTrace)
          /\ LET e == JsonTrace[l] IN
